@@ -35,6 +35,13 @@ T4_REGEXES = [r"r\.a$", r"r\.a", r"r\.a$|r\.b$", r"r\.[bc]$", r".*\.x$", r"r\.(b
 T4P_REGEXES = [r"r\.a", r"r\.ab", r"r\.a$", r"r\.", r"r", r"r.a", r"r\.a\.x", r"r\.a\.", r"r\.c|r\.a", r"r\.b"]
 
 
+# on T4U = r{a{b},a_b,c}: an expression that spells a module name as it is (dots not escaped) also matches the module whose
+# name has another character where the dot is
+T4U_REGEXES = [r"r.a.b", r"r.a.b$", r"r.a.", r"r.a_b", r"r..", r"r.a.b|r\.c$", r"r\.a\.b", r"r.a.c"]
+REGEXES_BY_TREE = {"T4": T4_REGEXES, "T4P": T4P_REGEXES, "T4U": T4U_REGEXES}
+OTHERS_BY_TREE = {"T4": ("r.a.x", "r.b", "r.c"), "T4P": ("r.a.x", "r.ab", "r.c"), "T4U": ("r.a.b", "r.a_b", "r.c")}
+
+
 def mk(v, d, e, subj, obj):
     return {"verb": v, "dir": d, "exc": e, "anything": False, "subj": subj, "obj": obj}
 
@@ -126,9 +133,9 @@ def exh_shard(arg, stt, deadline) -> None:
     tkey, shard, nshards, max_edges = arg
     tree = RS.TREES[tkey]
     cand = M.candidate_edges(tree, allow_root_target=False, root=tree[0])
-    regexes = T4P_REGEXES if tkey == "T4P" else T4_REGEXES
+    regexes = REGEXES_BY_TREE[tkey]
     exps = {rx: expand_regex(tree, rx) for rx in regexes}
-    others = [{"kind": "named", "names": [n]} for n in (("r.a.x", "r.ab", "r.c") if tkey == "T4P" else ("r.a.x", "r.b", "r.c"))]
+    others = [{"kind": "named", "names": [n]} for n in OTHERS_BY_TREE[tkey]]
     i = 0
     for imports in RS.graphs_of(cand, shard, nshards, max_edges):
         if RS.timed_out(deadline, i, 4):
@@ -189,7 +196,13 @@ def batch_shard(arg, stt, deadline) -> None:
 @st.composite
 def regex_for(draw, tree):
     esc = [re.escape(m) for m in tree]
-    form = draw(st.sampled_from(["anchored", "prefix", "alt", "class", "suffix", "nomatch", "lastpart"]))
+    form = draw(st.sampled_from(["anchored", "prefix", "alt", "class", "suffix", "nomatch", "lastpart", "plain"]))
+    if form == "plain":
+        # a module name written as it is: every dot stands for any character (preferably a name for which the tree has a
+        # module that differs from it exactly where the dots are)
+        twins = [m for m in tree if any(x != m and len(x) == len(m) and all(a == b or a == "." for a, b in zip(m, x)) for x in tree)]
+        m = draw(st.sampled_from(twins or list(tree)))
+        return m + draw(st.sampled_from(["", "$", "."]))
     if form == "anchored":
         return draw(st.sampled_from(esc)) + "$"
     if form == "prefix":
@@ -279,6 +292,9 @@ def run(ctx) -> None:
     ctx.exhaustive("T4P-plain-name-and-prefix-regexes", MOD, "exh_shard", [("T4P", i, 16, 2 if ctx.tier == "quick" else 4) for i in range(16)],
                    f"T4P = r{{a{{x}},ab,c}}: import relations with <= {2 if ctx.tier == 'quick' else 4} edges x {len(T4P_REGEXES)} regexes that spell a module name or a prefix of one "
                    "(r\\.a also matches r.ab; r\\.b matches nothing) x 2 sides x 3 opposite names x 12 shapes")
+    ctx.exhaustive("T4U-unescaped-dots", MOD, "exh_shard", [("T4U", i, 16, 2 if ctx.tier == "quick" else 4) for i in range(16)],
+                   f"T4U = r{{a{{b}},a_b,c}}: import relations with <= {2 if ctx.tier == 'quick' else 4} edges x {len(T4U_REGEXES)} regexes that spell a module name with "
+                   "unescaped dots (r.a.b also matches r.a_b) x 2 sides x 3 opposite names x 12 shapes")
     bk = [(("named", "named"), ("sub", "sub")), (("named", "sub"), ("sub", "named"))]
     be = 2 if ctx.tier == "quick" else 4
     ctx.exhaustive("T4-batches-vs-single-subjects", MOD, "batch_shard", [(k, i, 16, be) for k in bk for i in range(16)],
